@@ -99,6 +99,31 @@ def run_case(canon_kind, canon, aliases):
     return txt, None, None
 
 
+def run_vector_case(expand_mx):
+    """the canonical variable is an ELEMENT of an array (input / differentiated state) without a start of its own"""
+    import pymoca.parser
+    from pymoca.backends.casadi.generator import generate
+    from pymoca.backends.casadi._options import _merge_default_options
+    txt = ("model M input Real u[2]; Real x[2](each min = -9.0); Real a(start = 5.0, max = 8.0); Real b(start = 4.0, min = -6.0); Real c(start = 1.5); "
+           "equation a = u[1]; b = -u[2]; c = -x[1]; der(x[1]) = 1; der(x[2]) = 2; end M;")
+    o = _merge_default_options({"detect_aliases": True, "expand_vectors": True, "expand_mx": expand_mx})
+    model = generate(pymoca.parser.parse(txt), "M", o)
+    model.simplify(o)
+    allv = {v.symbol.name(): v for v in model.states + model.alg_states + model.inputs}
+    want = {"u[1]": (5.0, None, 8.0), "u[2]": (-4.0, None, 6.0), "x[1]": (-1.5, -9.0, None)}
+    for n_, (st, mn, mx) in want.items():
+        if n_ not in allv:
+            return txt, "%s not among the remaining variables %s" % (n_, sorted(allv)), "canonical %s kept" % n_
+        v = allv[n_]
+        if num(v.start) != st:
+            return txt, "%s.start = %r (expand_mx=%s)" % (n_, num(v.start), expand_mx), "sign-adjusted start %r of its alias" % st
+        if mn is not None and num(v.min) != mn:
+            return txt, "%s.min = %r" % (n_, num(v.min)), "%r" % mn
+        if mx is not None and num(v.max) != mx:
+            return txt, "%s.max = %r" % (n_, num(v.max)), "%r" % mx
+    return txt, None, None
+
+
 def cases(tier, seed):
     rng = np.random.RandomState(seed + 16)
     out = []
@@ -135,12 +160,12 @@ def main():
     payload = json.load(sys.stdin)
     tier, seed = payload.get("tier", "quick"), int(payload.get("seed", 0) or 0)
     failures, n = [], 0
-    for c in cases(tier, seed):
+    for c in [("vector", False), ("vector", True)] + cases(tier, seed):
         n += 1
         try:
-            txt, obs, exp = run_case(*c)
+            txt, obs, exp = run_vector_case(c[1]) if c[0] == "vector" else run_case(*c)
         except BaseException as e:  # noqa
-            txt, obs, exp = build(*c), "%s: %s" % (type(e).__name__, str(e)[:120]), "simplify succeeds"
+            txt, obs, exp = ("vector model" if c[0] == "vector" else build(*c)), "%s: %s" % (type(e).__name__, str(e)[:120]), "simplify succeeds"
         if obs:
             # negative alias bounds may legitimately make min > max (empty intersection): still the intersection
             failures.append({"class": "alias-metadata", "input": txt, "observed": obs, "expected": exp})
@@ -148,7 +173,7 @@ def main():
                 break
     if payload.get("mode") == "bounded":
         print(json.dumps({"performed": True, "cases": n, "distinct_nontrivial": n, "failures": failures,
-                          "rule": "canonical x (state / algebraic / input) with 1-3 aliases a_i = +-x or +-a_j (chains), bounds one-sided / two-sided / absent, nominals, fixed, starts: systematic pairs plus random chains (seed %d); after the real simplify(detect_aliases) the canonical's min/max/nominal/fixed/start are compared with the signed intersection" % seed,
+                          "rule": "canonical x (state / algebraic / input) with 1-3 aliases a_i = +-x or +-a_j (chains), bounds one-sided / two-sided / absent, nominals, fixed, starts: systematic pairs plus random chains, plus canonical variables that are elements of an expanded array (seed %d); after the real simplify(detect_aliases) the canonical's min/max/nominal/fixed/start are compared with the signed intersection" % seed,
                           "bound": "%d models" % n}))
     else:
         f = failures[0] if failures else None
